@@ -1,4 +1,5 @@
 import IkeProofs.Refine.Build
+import IkeProofs.Refine.BuildEap5G
 import IkeProofs.Refine.Header
 
 /-! # C19 over the code as translated from the current source (`tools/go2lean`)
@@ -25,5 +26,30 @@ theorem C19_gen_BuildNotification (c : List IKEPayload) (ps : List Payload) (hc 
     (IKEPayloadContainer.BuildNotification c proto ntype spi data).map GenAbs.absPayloads =
       .ok (some (Build.buildNotification ps proto ntype spi data)) :=
   BuildNotification_refines c ps hc proto ntype spi data
+
+/-- `BuildEAP5GStart` as translated from `message/build.go` IS the model's builder (whose output `C19_eap5gStart`
+shows to be the TS 24.502 EAP-5G Start packet): ONE EAP Request payload appended, nothing else touched -/
+theorem C19_gen_BuildEAP5GStart (c : List IKEPayload) (ps : List Payload) (hc : GenAbs.absPayloads c = some ps)
+    (ident : UInt8) :
+    (IKEPayloadContainer.BuildEAP5GStart c ident).map GenAbs.absPayloads =
+      .ok (some (Build.buildEAP5GStart ps ident)) :=
+  BuildEAP5GStart_refines c ps hc ident
+
+/-- `BuildEAP5GNAS` as translated IS the model's builder, for EVERY NAS PDU: refused (an error) exactly for an
+empty PDU and for more than 65535 octets, otherwise one EAP Request / Expanded (10415, 3) payload whose vendor data is
+message id 2, spare 0, the 16-bit length and the PDU octets unchanged (`C19_eap5gNas_layout`: the TS 24.502 packet) -/
+theorem C19_gen_BuildEAP5GNAS (c : List IKEPayload) (ps : List Payload) (hc : GenAbs.absPayloads c = some ps)
+    (ident : UInt8) (nas : Bytes) :
+    (IKEPayloadContainer.BuildEAP5GNAS c ident nas).map GenAbs.absPayloads =
+      (Build.buildEAP5GNAS ps ident nas).map some :=
+  BuildEAP5GNAS_refines c ps hc ident nas
+
+/-- the same in closed form over the generated code alone -/
+theorem C19_gen_BuildEAP5GNAS_closed (c : List IKEPayload) (ident : UInt8) (nas : Bytes) :
+    IKEPayloadContainer.BuildEAP5GNAS c ident nas =
+      if nas.length = 0 then .err else if nas.length > 65535 then .err else
+      .ok (c ++ [.PayloadEap { EAP := ⟨1, ident,
+        .expanded 10415 3 ([2, 0] ++ put16 (UInt16.ofNat nas.length) ++ nas)⟩ }]) :=
+  BuildEAP5GNAS_eq c ident nas
 
 end Ike
